@@ -241,8 +241,13 @@ def run_table(case):
             alt = [c for c in "ACGT" if c != ref][k % 3]
             if any(p_ == r + 1 for p_, _ in cat):
                 continue
-            for b_, g_ in (("hg19", g19), ("hg38", g38)):
-                novel[b_].append(truth.genome_variant(meta, b_, case["db"]["builds"][b_]["strand"], (r + 1, f"{ref}>{alt}")))
+            gv = {b_: truth.genome_variant(meta, b_, case["db"]["builds"][b_]["strand"], (r + 1, f"{ref}>{alt}"))
+                  for b_ in ("hg19", "hg38")}
+            # the position must be free of catalogue sites in BOTH builds (an insertion's anchor base differs between strands)
+            if any(gv[b_][0] in {p_ for p_, _ in g_.mutations} for b_, g_ in (("hg19", g19), ("hg38", g38))):
+                continue
+            for b_ in ("hg19", "hg38"):
+                novel[b_].append(gv[b_])
         if novel["hg19"]:
             labels.append("non-catalogue-exonic-variant")
     for b_, g in (("hg19", g19), ("hg38", g38)):
@@ -280,6 +285,7 @@ def run_align(case):
         elif names != [c[3] for c in copies]:
             return Result([V("planted-alleles-resolve-differently-between-builds", hg19=names, hg38=[c[3] for c in copies])], labels, True)
         sim = simreads.Sim(gene, seed=case["sim_seed"])
+        sim.mirror = True
         rl = case["rl"]
         step = max(1, rl // case["depth"])
         bam, pbam = os.path.join(d, f"s{build}.bam"), os.path.join(d, f"p{build}.bam")
